@@ -42,7 +42,7 @@ def cfg(tier, lazy_only):
 
 
 def budget(tier):
-    return 3000 if tier == "quick" else 100000
+    return 5000 if tier == "quick" else 100000
 
 
 def strategy(tier):
